@@ -112,6 +112,18 @@ def programs(tier):
                 p.fn("cls", [("x", TY)], STRING, Match(sc, [(pat, Str("hit")), (PInt(0, ty) if False else PWild, Str("other"))]))
                 p.fn("main", [], UNIT, Block([println(Call("cls", lit(min(v, hi), ty))), println(Call("cls", lit(0, ty))), println(Call("cls", lit(hi, ty)))], Unit))
                 add(f"pattern-literal:{name}:{ty}:{scrut}", p, expect="accept" if v <= hi else "reject")
+    # ---- UNSUFFIXED literal patterns take the scrutinee's type: the type's largest value, the value of its top bit alone (2^63 for
+    # uint64: beyond every signed type) and zero are three different patterns; one past the largest value is rejected
+    for ty in BITS:
+        lo, hi = rng_of(ty)
+        TY = T(ty)
+        top = (hi + 1) // 2
+        for name, third in (("in-range", 0), ("max+1", hi + 1)):
+            p = Program(f"c10_upat_{ty}_{name.replace('+', 'p').replace('-', '_')}")
+            arms = [(PInt(hi, ty), Str("max")), (PInt(top, ty), Str("top")), (PInt(third, ty), Str("zero")), (PWild, Str("other"))]
+            p.fn("cls", [("x", TY)], STRING, Match(Var("x"), arms))
+            p.fn("main", [], UNIT, Block([println(Call("cls", lit(hi, ty))), println(Call("cls", lit(top, ty))), println(Call("cls", lit(0, ty))), println(Call("cls", lit(1, ty)))], Unit))
+            add(f"unsuffixed-pattern-literal:{name}:{ty}", p, expect="accept" if third <= hi else "reject")
     # literal zero divisor with a variable dividend
     p = Program("c10_div_literal_zero")
     p.fn("main", [], UNIT, Block([Let("x", Int(5)), println(Str("before")), println(show_int(Bin("/", Var("x"), Int(0)))), println(Str("after"))], Unit))
